@@ -19,6 +19,9 @@ from lib.proggen import ProgGen
 from lib.props.c01 import adversarial, mutate, vm_stream
 
 STRUCT = [
+    # element / attribute / slice assignments where a value is expected (inside a function body the stack below them is empty)
+    "func f(d) { x = (d.b = 1) }; f({})", "func f(d) { 1 + (d.b = 1) }; f({})", "func f(a) { [a[0] = 5, 2] }; f([1])", "func f(a) { y = a[0:1] = [7] }; f([1,2])",
+    "func f(d) { (d['k'] = 2) ? 3 : 4 }; f({})", "func g(v) { v }; func f(d) { g(d.b = 1) }; f({})", "d = {}; x = d.a = d.b = 3; x",
     "1", "1+2*3", "if 1 {2} else {3}", "if 0 {2} else if 1 {3} else {4}", "i=0; while i<3 { i=i+1 }; i",
     "i=0; while i<9 { i=i+1; if i>5 {break}; if i<2 {continue}; i }", "i=0; while i<30 { i=i+1; if 1 { continue } }; i",
     "i=0; while i<30 { i=i+1; if i>25 { break } }; i", "j=0; while j<25 { j=j+1; i=0; while i<3 { i=i+1; if i>1 { break } } }; j",
